@@ -34,16 +34,16 @@ def parseItem (s : String) : Option Param :=
   | _ => none
 
 def showVal : Val → String
-  | .int i => toString i
-  | .real q => showRat q
-  | .bool b => if b then "1" else "0"
-  | .method m => m.ident
-  | .neighbors m => m.ident
-  | .eigen m => m.ident
-  | .strategy s => s.ident
-  | .progressFn null => if null then "0" else "1"
-  | .cancelFn c => if c.isNone then "0" else "1"
-  | .other t => "?" ++ t
+  | .int i => "int:" ++ toString i
+  | .real q => "real:" ++ showRat q
+  | .bool b => if b then "bool:1" else "bool:0"
+  | .method m => "name:" ++ m.ident
+  | .neighbors m => "name:" ++ m.ident
+  | .eigen m => "name:" ++ m.ident
+  | .strategy s => "name:" ++ s.ident
+  | .progressFn null => if null then "fn:0" else "fn:1"
+  | .cancelFn c => if c.isNone then "fn:0" else "fn:1"
+  | .other t => "other:" ++ t
 
 def sign (n : Nat) : String := if n = 0 then "0" else "+"
 
